@@ -97,6 +97,7 @@ structure WorldDesc where
   handlerDefPanic : Option Nat := none
   handlerOut : Outcome := .ok 0
   handlerWraps : Bool := false      -- and_then handler: returns Ok(..)/Err(..)
+  handlerGate : Nat := 0            -- async `then`/`and_then` handler: the future it returns awaits this gate (0: none)
   deriving Repr, Inhabited
 
 def mkWorld (d : WorldDesc) : World where
@@ -208,6 +209,9 @@ def parseWorldItems : List String → WorldDesc → Option WorldDesc
       let o ← parseOutcome o
       parseWorldItems rest { d with handlerOut := o }
     | ["hw"] => parseWorldItems rest { d with handlerWraps := true }
+    | ["hg", g] => do
+      let g ← g.toNat?
+      parseWorldItems rest { d with handlerGate := g }
     | _ => none
 
 def parseWorld (s : String) : Option WorldDesc := parseWorldItems (s.splitOn ";") {}
